@@ -89,6 +89,11 @@ func c14(r *Report) propMeta {
 	r.ArgHas("new-member-active", bK+"AddMember", "types.NewMember", 2, 1, "^const:true")
 	r.FieldWriters("member-active-writers", "Member.IsActive", nil, []string{bK + "ActivateMember", bK + "DeactivateMember", "x/bandtss/types.NewMember"}, []string{"x/bandtss"})
 
+	// a transfer that fails must fail the allocation (all or nothing): no bank error is tested and then passed over in the
+	// begin-block allocations (seed C14-14 logged a failed member payout and carried on; the unpaid share stayed in the
+	// distribution account, booked nowhere). The swallowed-error census of begin/end-block code is C02.R7.
+	r.Include("C02", "C02.R7")
+
 	return propMeta{
 		Decided: []string{
 			"R1 the bank/distribution methods reachable from both AllocateTokens are only balance reads, module-to-module/account sends, GetCommunityTax, FundCommunityPool and AllocateTokensToValidator (no mint, burn or user-account debit)",
